@@ -50,4 +50,6 @@ def main : IO Unit := do
     loop h out ({} : Dirty.DState) Dirty.driverStep {}
   | some (.list [.atom "model", .atom "pen"]) =>
     loop h out ({} : Pen.DState) Pen.driverStep {}
+  | some (.list [.atom "model", .atom "geom"]) =>
+    loop h out ({} : Geom.World) Geom.driverStep {}
   | _ => out.putStrLn "unknown-model"
